@@ -64,10 +64,15 @@ func selfValidate(prop, root string) selfValResult {
 		if b, err := os.ReadFile(filepath.Join(dir, "meta.json")); err == nil {
 			json.Unmarshal(b, &m)
 		}
+		// the changes written to break this property; with BVCHECK_ALLSEEDS=1 also every change that the
+		// check of this property is recorded to report although it targets another property (about five
+		// times as many variants since round 5: 241 changes, each judged on two views)
 		want := m.Property == prop
-		for _, d := range m.DetectedBy {
-			if d == prop {
-				want = true
+		if os.Getenv("BVCHECK_ALLSEEDS") == "1" {
+			for _, d := range m.DetectedBy {
+				if d == prop {
+					want = true
+				}
 			}
 		}
 		if want {
